@@ -32,13 +32,43 @@ def setup(ctx):
     monitors.install_apply_monitor(ctx)
 
 
+def _behaviour(t, pp):
+    try:
+        v, ok = tx.safe_apply(t, pp)
+        return None if v is None else np.where(ok[:, None], np.asarray(v, dtype=float), 0.0)
+    except Exception:
+        return None
+
+
 def w_cross(ctx, rng, i):
     d = 2 + i % 2
-    kinds = tx.kinds(d) + tx.EXTRA_HOMOG + (tx.DEGENERATE_2D if d == 2 else []) + ["NonSquareHomogeneous", "ChainWithIdentityMember"]
+    kinds = tx.kinds(d) + tx.EXTRA_HOMOG + (tx.DEGENERATE_2D if d == 2 else []) + ["NonSquareHomogeneous", "ChainWithIdentityMember", "ChainAfterChain"]
     kind = kinds[(i // 2) % len(kinds)]
     cls = gen.SHAPE_CLASSES[(i // (2 * len(kinds))) % 8]
     nlm = int(rng.integers(0, 4))
-    t, recipe = tx.make(rng, kind, d)
+    sequential = None
+    if kind == "ChainAfterChain":
+        # a chain put together out of two chains (each of two or three members that do not commute): it moves shapes as
+        # applying the first chain and then the second one does
+        import menpo.transform as _mt0
+        pool = ["Translation", "NonUniformScale", "Rotation", "Affine", "UniformScale"]
+        first = _mt0.TransformChain([tx.make(rng, pool[rng.integers(0, len(pool))], d)[0] for _ in range(int(rng.integers(2, 4)))])
+        second = _mt0.TransformChain([tx.make(rng, pool[rng.integers(0, len(pool))], d)[0] for _ in range(int(rng.integers(2, 4)))])
+        f0, s0 = first.copy(), second.copy()
+        how = int(rng.integers(0, 4))
+        with taps.quiet():
+            if how == 0:
+                t = second.compose_after(first)
+            elif how == 1:
+                t = first.compose_before(second)
+            elif how == 2:
+                second.compose_after_inplace(first); t = second
+            else:
+                first.compose_before_inplace(second); t = first
+        recipe = None
+        sequential = (lambda p: s0.apply(f0.apply(p)), ["compose_after", "compose_before", "compose_after_inplace", "compose_before_inplace"][how])
+    else:
+        t, recipe = tx.make(rng, kind, d)
     equal_sizes = bool(rng.random() < 0.4)
     s = gen.shape(rng, cls, d=d, with_landmarks=0, scale=0.55 * tx.BOX, centred=True,
                   dtype=[float, float, np.float32][rng.integers(0, 3)])
@@ -96,20 +126,40 @@ def w_cross(ctx, rng, i):
     if dense_shape and not has_empty:
         bs = [None, 1000, 4097][rng.integers(0, 3)]          # (thousands of one-point batches would only burn time)
     history = int(rng.integers(0, 4))
-    if history == 3:
+    if history == 3 and kind != "ChainAfterChain":
         # the transform's parameters were replaced after it was built (parameter vector, new target): only the new ones count
-        with taps.quiet():
-            t2 = tx.reparameterise(rng, t, kind, d)
-        if t2 is not None:
-            t = t2
+        if tx.is_alignment(t) and isinstance(t, _mt.Homogeneous) and rng.random() < 0.5:
+            # an alignment handed a new target is the alignment its source, the new target and its options define
+            import menpo.shape as _ms3
+            with taps.quiet():
+                t.set_target(_ms3.PointCloud(t.target.points + rng.normal(scale=0.5, size=t.target.points.shape)))
+                o = {k: getattr(t, k) for k in ("rotation", "allow_mirror") if k in t.__dict__}
+                fresh = type(t)(t.source.copy(), t.target.copy(), **o)
+                pp = tx.probe(rng, d, 6)
+                e = tx.maxdiff(t.apply(pp), fresh.apply(pp))
+            ctx.bump("retargeted_alignments_compared_with_a_fresh_one")
+            if not e <= 1e-8 * tx.BOX:
+                ctx.fail("retargeted_alignment_moves_points_by_another_map_than_its_source_target_and_options_define", cls=type(t).__name__,
+                         mech="options:" + ",".join("%s=%s" % kv for kv in sorted(o.items())), err=e)
         else:
-            history = 0
+            with taps.quiet():
+                t2 = tx.reparameterise(rng, t, kind, d)
+            if t2 is not None:
+                t = t2
+            else:
+                history = 0
     if rng.random() < 0.3:
         # the transform has a past of operations that do not change it: its inverse was taken, it was copied, composed out of
         # place, applied to other points
         with taps.quiet():
-            if tx.bystander_history(rng, t, d):
-                ctx.bump("transforms_with_a_bystander_history")
+            pp = tx.probe(rng, d, 6)
+            y0 = _behaviour(t, pp)
+            done = tx.bystander_history(rng, t, d)
+            y1 = _behaviour(t, pp)
+        if done:
+            ctx.bump("transforms_with_a_bystander_history")
+            if y0 is not None and (y1 is None or tx.maxdiff(y0, y1) > 0):
+                ctx.fail("transform_changed_by_operations_documented_to_leave_it_alone", cls=type(t).__name__, mech=",".join(sorted(set(done))))
     if history == 1:
         # the same transform object has already been applied to something of the same size
         if dense_shape:
@@ -146,6 +196,11 @@ def w_cross(ctx, rng, i):
         ident = tx.maxdiff(t.apply(pts), pts) < 1e-12
     except Exception:
         pass
+    if sequential is not None and r is not None:
+        e = tx.maxdiff(r.points, sequential[0](np.asarray(s.points, dtype=float)))
+        ctx.bump("chains_of_chains_judged_against_sequential_application")
+        if not e <= 1e-8 * tx.BOX:
+            ctx.fail("chain_composed_with_a_chain_moves_the_shape_by_another_map_than_one_after_the_other", cls=cls, mech=sequential[1], err=e)
     structured = cls != "PointCloud"
     ctx.see("transform_kinds", kind)
     ctx.see("shape_classes", cls)
